@@ -11,7 +11,7 @@ CHECKS = {
    note="trusts rowan's text()/text_range(); explores short exhaustive + structured random inputs, not all strings",
    technique="property-based testing: round-trip oracle over exhaustive token-class sequences and grammar/mutation generators"),
  "C02": dict(cat="exploration", design="§5 C02",
-   text="Totality oracle (no panic/abort via catch_unwind + supervisor, deterministic step budget from the verif hook, linear work bound 24*(max(raw lexical tokens, tree tokens)+1)+256, well-formed error ranges/messages) over C01's space (which includes 15 nesting shapes up to depth 250 and 10^4-fold token repetition) plus unterminated constructs at every token boundary.",
+   text="Totality oracle (no panic/abort via catch_unwind + supervisor, deterministic step budget from the verif hook, linear work bound 24*(max(raw lexical tokens, tree tokens)+1)+256, well-formed error ranges/messages) over C01's space (which includes 15 nesting shapes up to depth 250, 10^4-fold token repetition and every non-nesting lexeme repeated 150000 times on a 512 KiB stack) plus unterminated constructs at every token boundary.",
    note="step counter hook counts lexer tokens and opened nodes; 256 MiB worker stacks (the server's 2 MiB stacks are not asserted); nesting > 256 skipped as documented non-goal",
    technique="property-based testing / fuzzing with a deterministic step-budget hook"),
  "C10": dict(cat="exploration", design="§5 C10",
@@ -39,7 +39,7 @@ CHECKS = {
    note="workspace = key set of diagnostics(); text of a file = what the harness' FileSystem served",
    technique="property-based testing: validity predicate over all query results"),
  "C07": dict(cat="exploration", design="§5 C07",
-   text="Differential oracle after every step of generated edit histories (1..12 operations over a 4-file workspace, 24 text variants per file covering every include subset, renames, moved includes, syntax/type errors, missing includes; server-style and API-style edits, root switches): the long-lived host's full query dump must equal a fresh host's. All ordered pairs of a first operation with a second are enumerated, longer histories are random; also histories over generated (SEM) programs with seven kinds of text variants, disk-only changes of included files, and didOpen/didChange/didClose histories through the real server compared with a fresh analysis of disk overlaid by the open buffers.",
+   text="Differential oracle after every step of generated edit histories (1..12 operations over a 4-file workspace, 24 text variants per file covering every include subset, renames, moved includes, syntax/type errors, missing includes; server-style and API-style edits, root switches): the long-lived host's full query dump must equal a fresh host's. All ordered pairs of a first operation with a second are enumerated, longer histories are random; also histories over generated (SEM) programs with seven kinds of text variants, disk-only changes of included files, and didOpen/didChange/didClose histories through the real server - with unopened files rewritten on disk, also to same-length texts under an unchanged modification time - compared with a fresh analysis of disk overlaid by the open buffers.",
    note="every edit is followed by set_root_file; hash-ordered result lists are compared sorted; FileIds are normalised to paths",
    technique="stateful property-based testing: history generation with a from-scratch differential oracle"),
  "C16": dict(cat="exploration", design="§5 C16",
@@ -47,7 +47,7 @@ CHECKS = {
    note="traversal-budget hook in collect_sources / Include::index; search order taken from the documentation",
    technique="exhaustive small-scope enumeration of configurations against a reference model"),
  "C20": dict(cat="exploration", design="§5 C20",
-   text="Exhaustive over the finite completion vocabularies in the four contexts x the lexer's tables (acceptance decided by running the server's lexer/parser, candidates harvested from lexer.rs and the reference operator list; every accepted operator must be offered after '!' in four contexts, one with the '!' directly in front of an operator name); class completion on generated multi-file workspaces (template parameters of seven types with type-correct defaults of several shapes, redeclarations) at every parent-class position with 0..3 typed characters, and at a parent-class position appended to generated (SEM) programs.",
+   text="Exhaustive over the finite completion vocabularies in the four contexts x the lexer's tables (acceptance decided by running the server's lexer/parser, candidates harvested from lexer.rs and the reference operator list; every accepted operator must be offered after '!' in four contexts, one with the '!' directly in front of an operator name); the same contexts behind generated trivia (non-ASCII comments, CRLF, block comments) must offer exactly what the bare context offers; class completion on generated multi-file workspaces (template parameters of seven types with type-correct defaults of several shapes, redeclarations) at every parent-class position with 0..3 typed characters, and at a parent-class position appended to generated (SEM) programs.",
    note="eight vocabulary mismatches are pinned by a snapshot test and listed as known findings (exact spelling signatures)",
    technique="exhaustive enumeration of vocabularies + property-based testing of class completion"),
  "C05": dict(cat="exploration", design="§5 C05",
@@ -59,7 +59,7 @@ CHECKS = {
    note="well-formedness audited against llvm-tblgen-14 on its feature subset; token deletions restricted to ';', '=' (not before '{') and ':' whose absence is locally detectable; type faults use literals for which no TableGen conversion exists",
    technique="property-based testing + single-fault seeding over generated programs"),
  "C18": dict(cat="exploration", design="§5 C18",
-   text="Outline and folding expectations known by construction from the SEM generator (statement extents, declaring identifiers, template arguments, declared/overridden fields, defset membership incl. nested defsets and blocks inside defsets) compared exactly with document_symbol and folding_range for every file of 25000 programs per quick run.",
+   text="Outline and folding expectations known by construction from the SEM generator (statement extents, declaring identifiers, template arguments, declared/overridden fields, defset membership incl. nested defsets and blocks inside defsets, forward-declared classes as declarations of their own) compared exactly with document_symbol and folding_range for every file of 25000 programs per quick run.",
    note="outline entries of defs inside multiclass bodies and of defs named by a paste expression are not asserted",
    technique="property-based testing with a by-construction oracle"),
  "C19": dict(cat="exploration", design="§5 C19",
@@ -67,11 +67,11 @@ CHECKS = {
    note="label/signature formatting matched by containment; hints of multiclass references not asserted; fields overridden by let are exempt from the use=declaration clause",
    technique="property-based testing with a by-construction oracle"),
  "C08": dict(cat="exploration", design="§5 C08",
-   text="The real Server runs in-process; a controlled scheduler built on schedule-point hooks (handlers, set_file_content, snapshot tasks, vfs reads) enumerates, per scenario (5 handlers - change root, change included, open included, re-send identical text, close root - x {no request, each of the 8 request kinds; thorough: every pair of request kinds}, with the previous notification's diagnostics task alive), every interleaving with at most 1 preemption (thorough: 3) by stateless DFS; blocked threads are recognised from /proc (sleeping, unchanged context-switch counters), a deadlock is reported when no actor can be released while some are blocked. Plus uncontrolled bursts (all 'change, request' pairs, workspace-switch sequences over documents that carry diagnostics, a third document and a root that drops its include, wide-workspace sequences - 40/300 includes, 200/3000 uses, the next edit sent the moment publishing starts - and random operation lists on documents of 1..300 classes) where a missing answer counts only with all-threads-blocked evidence.",
+   text="The real Server runs in-process; a controlled scheduler built on schedule-point hooks (handlers, set_file_content, snapshot tasks, vfs reads) enumerates, per scenario (5 handlers - change root, change included, open included, re-send identical text, close root - x {no request, each of the 8 request kinds; thorough: every pair of request kinds}, with the previous notification's diagnostics task alive), every interleaving with at most 1 preemption (thorough: 3) by stateless DFS; blocked threads are recognised from /proc (sleeping, unchanged context-switch counters), a deadlock is reported when no actor can be released while some are blocked. Plus uncontrolled bursts (all 'change, request' pairs, workspace-switch sequences over documents that carry diagnostics, a third document and a root that drops its include, wide-workspace sequences - 40/300 includes, 200/3000 uses, the next edit sent the moment publishing starts - and random operation lists on documents of 1..300 classes) where a missing answer counts only with all-threads-blocked evidence. The client announces the capabilities a current editor announces (dynamic registration, workspace/*/refresh, work-done progress) and answers every server-to-client request at once, behind what it has already written.",
    note="liveness = completes under every enumerated schedule of these bounded scenarios at hook granularity; preemption-bounded, not all interleavings; OS pre-emption inside lock implementations is not controlled; timeouts without blocked-thread evidence are inconclusive",
    technique="schedule enumeration (stateless DFS, preemption-bounded) with a controlled scheduler + randomized stress"),
  "C09": dict(cat="exploration", design="§5 C09",
-   text="2000 generated multi-file sessions per quick run against the real server with per-file line structure (pushed-down headers, LF/CRLF/mixed line endings, byte order marks, non-ASCII incl. the edges of the UTF-8 length classes): every range/location in definition, references, documentSymbol, foldingRange, documentLink, inlayHint answers and in published diagnostics is compared with the ide-level result converted by the independent reference position mapper against the text of the file it names; each session then sends a second revision of the root with the same bytes and moved line breaks and compares what the client holds again; then the first header is opened, edited and queried as an open included document (diagnostics, outline, definition, references, hints). Independently of the ide-level oracle every definition range must spell the identifier asked about.",
+   text="2000 generated multi-file sessions per quick run against the real server with per-file line structure (pushed-down headers, LF/CRLF/mixed line endings, byte order marks, non-ASCII incl. the edges of the UTF-8 length classes): every range/location in definition, references, documentSymbol, foldingRange, documentLink, inlayHint answers and in published diagnostics is compared with the ide-level result converted by the independent reference position mapper against the text of the file it names; each session then sends a second revision of the root with the same bytes and moved line breaks and compares what the client holds again; then an unopened included file changes on disk, the root is sent again unchanged and definitions into that file are compared in the coordinates of the new disk text; then the first header is opened, edited and queried as an open included document (diagnostics, outline, definition, references, hints). Independently of the ide-level oracle every definition range must spell the identifier asked about.",
    note="isolates server.rs/to_proto.rs/from_proto.rs: a wrong range computed by the ide layer appears on both sides",
    technique="property-based testing: differential between the server's JSON and an ide-level oracle through a reference position mapper"),
  "C11": dict(cat="exploration", design="§5 C11",
@@ -79,7 +79,7 @@ CHECKS = {
    note="buffer = disk in this check (C12 covers the difference); idle = all spawned tasks ended + barrier request",
    technique="stateful property-based testing against a from-scratch oracle"),
  "C12": dict(cat="exploration", design="§5 C12",
-   text="Exhaustive enumeration of all sessions of up to 4 (thorough 5) open/change/close/save events and workspace-leaving events (an unrelated third document becomes root; the root drops its include), each with the included document on disk, never saved, and including the root back (include cycle through every edited document), over a root and an included document whose disk and buffer texts differ observably, compared after every step with a reference session model (disk overlaid by open buffers, root = last touched).",
+   text="Exhaustive enumeration of all sessions of up to 4 (thorough 5) open/change/close/save events and workspace-leaving events (an unrelated third document becomes root; the root drops its include), each with the included document on disk, never saved, and including the root back (include cycle through every edited document), and - up to 3 (thorough 4) events - in a workspace directory reached through a symbolic link, over a root and an included document whose disk and buffer texts differ observably, compared after every step with a reference session model (disk overlaid by open buffers, root = last touched).",
    note="a close triggers no analysis; its effect (disk text is the truth again) is checked at the next analysed step",
    technique="exhaustive small-scope enumeration of sessions against a reference model"),
  "C04": dict(cat="exploration", design="§5 C04",
